@@ -81,7 +81,10 @@ def get_volume(cont, pos_x, pos_y, pix, fix_orientation=False):
         # If the contour has less than 4 pixels, the computation will fail.
         # In that case, the value np.nan is already assigned.
         cc = cont[ii]
-        if cc.shape[0] >= 4:
+        # The volume is also not defined (nan) for events whose position
+        # is not a finite number.
+        if (cc.shape[0] >= 4
+                and np.isfinite(pos_x[ii]) and np.isfinite(pos_y[ii])):
             # Center contour coordinates with given centroid
             contour_x = cc[:, 0] - pos_x[ii] / pix
             contour_y = cc[:, 1] - pos_y[ii] / pix
